@@ -11,6 +11,11 @@ import (
 )
 
 func BuildSchemaValidationV31(schema *base.Schema, validationString string, fieldInterface string) {
+	if schema == nil {
+		// A reference proxy resolves to no inline schema; there is nothing to annotate
+		return
+	}
+
 	// Parse and apply validation rules from the Validator field
 	validationRules := strings.Split(validationString, ",")
 	for _, rule := range validationRules {
